@@ -194,3 +194,48 @@ def gmm_training_case(draw, max_rows=None, min_rows=2):
                              (0, 0, 0)]))  # means, variances, weights
     upd = [bool(u) for u in upd]
     return {"X": X, "init": init, "upd": upd, "scales": scales}
+
+
+def kmeans_data(draw, max_rows=None, min_rows=3, maxF=4, degenerate=False, slow=False):
+    """Rows for k-means: blobs / uniform / with duplicates; slow=True gives 1-D uniform rows, which
+    from a corner initialisation need 10-20 Lloyd iterations to converge."""
+    r = rng(draw)
+    if slow:
+        k = choice(draw, [5, 4, 3])
+        n = integer(draw, 30, 60)
+        scale = 10.0 ** integer(draw, -3, 3)
+        offset = scale * choice(draw, [0.0, 10.0])
+        return {"X": offset + scale * r.uniform(-1, 1, (n, 1)), "k": k, "scale": scale, "kind": "slow-1d"}
+    F = integer(draw, 1, maxF + (2 if big() else 0))
+    k = choice(draw, [3, 2, 4, 5, 3, 1])
+    n = integer(draw, max(min_rows, k), max_rows or (60 if big() else 30))
+    scale = 10.0 ** integer(draw, -3, 3)
+    offset = scale * choice(draw, [0.0, 0.0, 10.0, -100.0])
+    kind = choice(draw, ["blobs", "blobs", "uniform", "dupes"])
+    if kind == "uniform":
+        X = r.uniform(-1, 1, (n, F))
+    else:
+        centres = r.normal(0, 3, (k, F))
+        X = centres[r.integers(0, k, n)] + r.normal(0, choice(draw, [0.1, 0.5, 1.5]), (n, F))
+    if kind == "dupes" and n >= 3:
+        for _ in range(integer(draw, 1, max(1, n // 3))):
+            X[r.integers(0, n)] = X[r.integers(0, n)]
+    X = offset + scale * X
+    return {"X": X, "k": k, "scale": scale, "kind": kind}
+
+
+def kmeans_init(draw, X, k, scale, corner=False):
+    """Explicit initial centroids (data rows + noise) or a seeded initialiser."""
+    r = rng(draw)
+    method = "corner" if corner else choice(draw, ["array", "corner", "array", "random", "k-means||", "corner"])
+    if method == "array":
+        idx = r.choice(X.shape[0], size=k, replace=X.shape[0] < k)
+        init = X[idx] + scale * r.normal(0, 0.3, (k, X.shape[1]))
+        return {"method": "array", "init": init, "seed": 0}
+    if method == "corner":
+        # all initial centroids in one corner of the data: many iterations before convergence
+        order = np.argsort(X[:, 0], kind="stable")
+        idx = order[np.arange(k) % X.shape[0]]
+        init = X[idx] + 0.0
+        return {"method": "array", "init": init, "seed": 0, "corner": True}
+    return {"method": method, "init": None, "seed": integer(draw, 0, 2**16)}
